@@ -5,13 +5,14 @@
 // item<T> / node::create, traits-initialised).  Every pair of canonical
 // pre-states (A content, B content) is an initial state; every operation
 // instance of the alphabet is executed on the real code from each, compared
-// with a (charset, std::string) reference, and the complete observable state
-// (header, data, all comparison entry points, allocation ledger, ASan) is
-// re-read after every step.  Post-states whose raw storage image differs from
-// every initial state (stale inline bytes after copy, non-text content, ...)
-// are expanded again with the full alphabet.
+// with a (charset, std::string) reference, and the observable state (header,
+// data, all comparison entry points, allocation ledger, ASan) is re-read after
+// every step.  Post-states whose raw storage image differs from every initial
+// state (stale inline bytes after copy, non-text content, ...) are expanded
+// again with the full alphabet.
 #include <cerrno>
 #include <cstdlib>
+#include <csignal>
 #include <algorithm>
 #include "core.h"
 #include "types.h"
@@ -21,28 +22,32 @@
 
 using namespace mc;
 const char *mc_id = "C16";
-const char *mc_rule = "snapshot exploration: all (content A, content B) pre-states over boundary lengths (0..5, pointer overlay 8/11/12, cap-1/cap/cap+1 of both storages, 253, 300, 65534) "
-                      "x all op instances (set, set(strlen), set(embedded NUL), set(NULL,n), over-long, copy A<-B/B<-A/A<-A/A<-NULL, operator=, self-aliased set, traits/C++ clone) per storage pair; "
-                      "post-states not identical to an initial state are expanded with the full alphabet again; "
+const char *mc_rule = "snapshot exploration per storage pair (A,B): all (content A, content B) pre-states over boundary lengths (0,1,3,4,5 | pointer overlay 8,11,12 | cap-1,cap,cap+1 of both storages | 253, 300, 65534) "
+                      "x all op instances on the real code (set, set(strlen), set(embedded NUL), set(NULL,n), over-long, copy A<-B / B<-A / A<-A / A<-NULL, operator=, set to own data, traits / C++ copy construction) vs a (charset, byte string) model; "
+                      "post-states whose raw storage image is not an initial state are expanded with the full alphabet again; "
                       "nontrivial = executed cases whose last operation moves the destination between unset/inline and external storage or replaces an external block";
 
 // ------------------------------------------------------------------ fault containment
-// A free() of something that is not a live heap block is fatal for ASan and its symptom (report, SIGSEGV inside
-// the allocator, silent release of a foreign block) depends on heap addresses.  The free hook below runs before
-// the allocator looks at the pointer: a wild or double free issued inside a library call is turned into one
-// deterministic harness-level report by leaving the call.  Direct faults of a library call (NULL source handed to
-// memcpy, ...) are contained the same way, so that one defect does not cost one worker process per case.
-#include <csignal>
+// free() of something that is not a live heap block is fatal for ASan, and its symptom (report, SIGSEGV inside the
+// allocator, silent release of a foreign block with arbitrary later damage) depends on heap addresses.  The free hook
+// below runs before the allocator looks at the pointer: inside a library call only blocks that were allocated inside
+// a library call may be released; anything else (wild or double free) is turned into one deterministic harness-level
+// report by leaving the call.  Direct faults of a library call (NULL source handed to memcpy, ...) are contained the
+// same way, so that one defect does not cost one worker process per case.
 extern "C" int __sanitizer_install_malloc_and_free_hooks(void (*)(const volatile void *, size_t), void (*)(const volatile void *));
-extern "C" int __sanitizer_get_ownership(const volatile void *);
 static sigjmp_buf guard_jmp;
 static volatile int guard_armed = 0;
 static struct sigaction old_segv, old_bus;
-static void guard_malloc(const volatile void *, size_t) {}
+static const volatile void *libblk[256]; static int nlibblk = 0;
+static void guard_malloc(const volatile void *p, size_t)
+{
+	if (mc::lib_depth > 0 && p && nlibblk < 256) libblk[nlibblk++] = p;
+}
 static void guard_free(const volatile void *p)
 {
-	if (!guard_armed || mc::lib_depth <= 0 || !p) return;
-	if (!__sanitizer_get_ownership(p)) { guard_armed = 0; siglongjmp(guard_jmp, 1000); }
+	if (!p) return;
+	for (int i = nlibblk; i-- > 0;) if (libblk[i] == p) { libblk[i] = libblk[--nlibblk]; return; }
+	if (guard_armed && mc::lib_depth > 0) { guard_armed = 0; siglongjmp(guard_jmp, 1000); }
 }
 static void guard_sig(int sig)
 {
@@ -66,10 +71,10 @@ static void guard_install()
 template <class F> static std::string guarded(F fn)
 {
 	int depth = mc::lib_depth;
-	int sig = sigsetjmp(guard_jmp, 1);
+	int sig = sigsetjmp(guard_jmp, 0);
 	if (sig == 0) { guard_armed = 1; std::string res = fn(); guard_armed = 0; return res; }
 	guard_armed = 0; mc::lib_depth = depth;
-	if (sig == 1000) return "memory\tthe library call passed a pointer to free() that is not a live allocation (wild or double free)";
+	if (sig == 1000) return "memory\tthe library call handed free() a pointer that is not a live library allocation (wild or double free)";
 	return std::string("memory\tthe library call faulted (") + (sig == SIGBUS ? "SIGBUS" : "SIGSEGV") + ")";
 }
 
@@ -111,8 +116,8 @@ static void destroy(H &h)
 {
 	if (!h.obj) return;
 	switch (h.kind) {
-	case EMB16: LIB(mpt::mpt_identifier_set(h.id, 0, 0)); free(h.obj); break;           // as the `ident` example does
-	case NEW32: case NEW64: case NEW128: case NEW256: LIB(mpt::mpt_identifier_set(h.id, 0, 0)); free(h.obj); break;
+	case EMB16: case NEW32: case NEW64: case NEW128: case NEW256:
+		LIB(mpt::mpt_identifier_set(h.id, 0, 0)); free(h.obj); break;           // as the `ident` example does
 	case NODE64: case NODE128: case NODE256: LIB(mpt::mpt_node_destroy(h.node)); break;
 	case CXX16: LIB((delete h.id, 0)); break;
 	case ITEM32: LIB((delete (mpt::item<mpt::metatype> *) h.obj, 0)); break;
@@ -125,11 +130,15 @@ static void destroy(H &h)
 // ------------------------------------------------------------------ contents
 static const int UTF8 = 1;   // MPT_CHARSET(UTF8)
 struct M { int cs; std::string b; bool operator==(const M &o) const { return cs == o.cs && b == o.b; } };
-static inline uint8_t pbyte(size_t i) { return (uint8_t) (1 + (i * 31 + 7) % 253); }      // 1..253, prefix closed
+static const std::string &pattern()
+{
+	static std::string p;
+	if (p.empty()) { p.resize(70001); for (size_t i = 0; i < p.size(); ++i) p[i] = (char) (1 + (i * 31 + 7) % 253); }   // 1..253, prefix closed
+	return p;
+}
 static std::string text(size_t len, int variant)   // 0: P(len)  1: Q(len) = P with another last byte  2: N(len) = P with an embedded NUL
 {
-	std::string s(len, 0);
-	for (size_t i = 0; i < len; ++i) s[i] = (char) pbyte(i);
+	std::string s(pattern(), 0, len);
 	if (variant == 1 && len) s[len - 1] = (char) 0xFE;
 	if (variant == 2 && len) s[len / 2] = 0;
 	return s;
@@ -138,7 +147,7 @@ struct Content { bool unset; size_t len; int variant; };
 static M model_of(const Content &c) { M m; if (c.unset) { m.cs = 0; } else { m.cs = UTF8; m.b = text(c.len, c.variant); m.b.push_back(0); } return m; }
 
 enum OpT { SET, SETZ, SETNUL, SETOVER, SETNULL, COPY_AB, COPY_BA, COPY_AA, COPY_ANULL, ASSIGN_AB, SELF, CLONE_TRAITS, CLONE_CXX };
-struct OpInst { int t; long a; int v; };
+struct OpInst { int t; long a; };
 
 struct Alphabet {
 	std::vector<Content> contents;
@@ -151,7 +160,7 @@ static void build_alphabet(Tier t, size_t capA, size_t capB, Alphabet &al)
 {
 	std::vector<size_t> L;
 	for (long x : {0, 1, 3, 4, 5, 8, 11, 12}) add(L, x);
-	for (size_t c : {capA, capB}) { add(L, (long) c - 1); add(L, (long) c); add(L, (long) c + 1); }   // string of cap-1 bytes is the last inline one
+	for (size_t c : {capA, capB}) { add(L, (long) c - 1); add(L, (long) c); add(L, (long) c + 1); }   // a text of cap-1 bytes (+NUL) is the last inline one
 	add(L, 253); add(L, 300); add(L, 65534);
 	if (t == Thorough) {
 		for (long x : {2, 7, 10, 13, 251, 252, 4080, 65533}) add(L, x);
@@ -165,50 +174,73 @@ static void build_alphabet(Tier t, size_t capA, size_t capB, Alphabet &al)
 	for (long x : {1L, 5L, (long) capA, 65534L}) add(Q, x);
 	if (t == Thorough) { add(Q, (long) capA - 1); add(Q, 12); }
 	for (size_t l : Q) al.contents.push_back(Content{false, l, 1});
-	for (size_t i = 1; i < al.contents.size(); ++i) al.ops.push_back(OpInst{SET, (long) i, 0});
-	for (long l : {0L, (long) capA - 1, 65534L}) al.ops.push_back(OpInst{SETZ, l, 0});
-	if (t == Thorough) for (long l : {(long) capA, 300L}) al.ops.push_back(OpInst{SETZ, l, 0});
-	for (long l : {3L, (long) capA + 1}) al.ops.push_back(OpInst{SETNUL, l, 0});
-	if (t == Thorough) al.ops.push_back(OpInst{SETNUL, (long) capA - 1, 0});
-	for (int form = 0; form < 4; ++form) al.ops.push_back(OpInst{SETOVER, form, 0});
+	for (size_t i = 1; i < al.contents.size(); ++i) al.ops.push_back(OpInst{SET, (long) i});
+	for (long l : {0L, (long) capA - 1, 65534L}) al.ops.push_back(OpInst{SETZ, l});
+	if (t == Thorough) for (long l : {(long) capA, 300L}) al.ops.push_back(OpInst{SETZ, l});
+	for (long l : {3L, (long) capA + 1}) al.ops.push_back(OpInst{SETNUL, l});
+	if (t == Thorough) al.ops.push_back(OpInst{SETNUL, (long) capA - 1});
+	for (int form = 0; form < 4; ++form) al.ops.push_back(OpInst{SETOVER, form});
 	{ std::vector<long> N = {0, 1, 5, (long) capA, (long) capA + 1, 65535, 65536};
 	  if (t == Thorough) { N.push_back(4); N.push_back((long) capA - 1); N.push_back(300); }
-	  for (long n : N) al.ops.push_back(OpInst{SETNULL, n, 0}); }
-	for (int o : {COPY_AB, COPY_BA, COPY_AA, COPY_ANULL, ASSIGN_AB}) al.ops.push_back(OpInst{o, 0, 0});
-	for (int mode = 0; mode < 3; ++mode) al.ops.push_back(OpInst{SELF, mode, 0});
-	al.ops.push_back(OpInst{CLONE_TRAITS, 0, 0});
-	al.ops.push_back(OpInst{CLONE_CXX, 0, 0});
+	  for (long n : N) al.ops.push_back(OpInst{SETNULL, n}); }
+	for (int o : {COPY_AB, COPY_BA, COPY_AA, COPY_ANULL, ASSIGN_AB}) al.ops.push_back(OpInst{o, 0});
+	for (int mode = 0; mode < 3; ++mode) al.ops.push_back(OpInst{SELF, mode});
+	al.ops.push_back(OpInst{CLONE_TRAITS, 0});
+	al.ops.push_back(OpInst{CLONE_CXX, 0});
 }
 
 // ------------------------------------------------------------------ observation helpers
 static const char *stclass(const M &m, size_t cap) { return m.b.empty() ? "unset" : (m.b.size() <= cap ? "inline" : "ext"); }
 static const char *lencls(size_t n, size_t cap) { return n == 0 ? "len=0" : (n <= 4 ? "len<=4" : (n <= cap ? "len<=cap" : "len>cap")); }
 
+static uint64_t fasthash(const void *p, size_t n)
+{
+	const uint8_t *b = (const uint8_t *) p; uint64_t h = 0x9e3779b97f4a7c15ULL ^ n;
+	while (n >= 8) { uint64_t w; memcpy(&w, b, 8); h = (h ^ w) * 0xff51afd7ed558ccdULL; h ^= h >> 29; b += 8; n -= 8; }
+	uint64_t w = 0; memcpy(&w, b, n); h = (h ^ w) * 0xc4ceb9fe1a85ec53ULL; h ^= h >> 32;
+	return h;
+}
 // raw image of the identifier storage (pointer bytes masked) + external content
 static std::string rawimage(const mpt::identifier *id)
 {
-	std::string s = fmt("%u/%u/%u:", (unsigned) id->_len, (unsigned) id->_charset, (unsigned) id->_max);
-	const uint8_t *v = (const uint8_t *) id->_val;
+	std::string s((const char *) id, 4 + (size_t) id->_max);
 	bool ext = id->_len > id->_max;
-	for (size_t i = 0; i < id->_max; ++i) { if (ext && i >= 4 && i < 12) s += "PP"; else s += hex(v + i, 1); }
 	if (ext) {
-		if (id->_base && ledger_is_live(id->_base)) s += fmt("|%016llx", (unsigned long long) fnv(id->_base, id->_len));
-		else s += "|BAD";
+		for (size_t i = 4; i < 12 && i < id->_max; ++i) s[4 + i] = 'P';
+		uint64_t h = 0xBADBADBADBADULL;
+		if (id->_base && ledger_is_live(id->_base)) h = fasthash(id->_base, id->_len);
+		s.append((const char *) &h, 8);
 	}
 	return s;
 }
+static std::string imgdesc(const mpt::identifier *id)
+{
+	std::string s = fmt("len=%u charset=%u max=%u inline=", (unsigned) id->_len, (unsigned) id->_charset, (unsigned) id->_max);
+	bool ext = id->_len > id->_max;
+	for (size_t i = 0; i < id->_max && i < 32; ++i) s += (ext && i >= 4 && i < 12) ? std::string("PP") : hex(id->_val + i, 1);
+	return s;
+}
 
-struct Tally { std::map<std::string, uint64_t> c; void operator()(const std::string &k, uint64_t n = 1) { c[k] += n; } };
+struct Tally { std::map<std::string, uint64_t> c; void operator()(const char *k, uint64_t n = 1) { c[k] += n; } };
 
 struct Sys {
-	H a, b; M ma, mb; size_t base; bool ok;
+	H a, b; M ma, mb; size_t base; size_t l0;
 	Tally tally;
-	Sys() : base(0), ok(false) {}
-	bool init(int ka, int kb) { size_t l0 = ledger_live(); ok = make(a, ka) && make(b, kb); base = ledger_live() - l0; ma.cs = mb.cs = 0; ma.b.clear(); mb.b.clear(); return ok; }
+	Sys() : base(0), l0(0) {}
+	bool init(int ka, int kb) { l0 = ledger_live(); bool ok = make(a, ka) && make(b, kb); base = ledger_live() - l0; ma.cs = mb.cs = 0; ma.b.clear(); mb.b.clear(); return ok; }
 	void fini() { destroy(a); destroy(b); }
 
-	// ---- complete observation of one identifier against its model; returns "" or "group\tdetail"
-	std::string observe(const H &h, const M &m, const char *who)
+	// memory oracle: no sanitizer report, exactly the expected number of live library blocks
+	std::string memcheck(size_t extra = 0)
+	{
+		if (asan_error()) return "memory\tAddressSanitizer reported an invalid memory access";
+		size_t want = l0 + base + extra + (ma.b.size() > a.cap) + (mb.b.size() > b.cap);
+		size_t live = ledger_live();
+		if (live != want) return fmt("memory\t%zu library allocations live, expected %zu (%s)", live - l0, want - l0, live > want ? "leak" : "a block that is still needed was released");
+		return "";
+	}
+	// header + data read back byte-exact
+	std::string light(const H &h, const M &m, const char *who)
 	{
 		const mpt::identifier *id = h.id;
 		if (id->_max != h.cap) return fmt("content\t%s: capacity field changed from %zu to %u", who, h.cap, (unsigned) id->_max);
@@ -221,7 +253,14 @@ struct Sys {
 			size_t i = 0; while (data[i] == m.b[i]) ++i;
 			return fmt("content\t%s: content differs from what was stored at byte %zu of %zu (got %02x, expected %02x)", who, i, m.b.size(), (unsigned) (uint8_t) data[i], (unsigned) (uint8_t) m.b[i]);
 		}
-		const mpt::identifier *cx = id;
+		if (asan_error()) return fmt("memory\t%s: reading the content back touches invalid memory (AddressSanitizer)", who);
+		return "";
+	}
+	// every comparison entry point against the model
+	std::string compares(const H &h, const M &m, const char *who)
+	{
+		const mpt::identifier *id = h.id;
+		const char *data = (const char *) mpt::mpt_identifier_data(id);
 		if (m.cs == UTF8) {
 			size_t len = m.b.size() - 1;
 			// exactly sized argument buffers
@@ -231,15 +270,15 @@ struct Sys {
 			int c;
 			if ((c = LIB(mpt::mpt_identifier_compare(id, ex, (int) len))) != 0) bad = fmt("compare\t%s: compare with the stored text (len %zu) returns %d", who, len, c);
 			else if (!memchr(s, 0, len) && (c = LIB(mpt::mpt_identifier_compare(id, s, -1))) != 0) bad = fmt("compare\t%s: compare(text,-1) with the stored text returns %d", who, c);
-			else if (!LIB(cx->equal(ex, (int) len))) bad = fmt("compare\t%s: identifier::equal is false for the stored text", who);
-			else if (LIB(cx->name()) != data) bad = fmt("compare\t%s: identifier::name() is not the stored text", who);
+			else if (!LIB(id->equal(ex, (int) len))) bad = fmt("compare\t%s: identifier::equal is false for the stored text", who);
+			else if (LIB(id->name()) != data) bad = fmt("compare\t%s: identifier::name() is not the stored text", who);
 			tally("compare:equal");
 			if (bad.empty() && len) {
 				ex[len - 1] ^= 0x40;
 				if (LIB(mpt::mpt_identifier_compare(id, ex, (int) len)) == 0) bad = fmt("compare\t%s: text differing in the last byte compares equal (len %zu)", who, len);
 				ex[len - 1] ^= 0x40; ex[0] ^= 0x40;
 				if (bad.empty() && LIB(mpt::mpt_identifier_compare(id, ex, (int) len)) == 0) bad = fmt("compare\t%s: text differing in the first byte compares equal (len %zu)", who, len);
-				if (bad.empty() && LIB(cx->equal(ex, (int) len))) bad = fmt("compare\t%s: identifier::equal is true for different text", who);
+				if (bad.empty() && LIB(id->equal(ex, (int) len))) bad = fmt("compare\t%s: identifier::equal is true for different text", who);
 				ex[0] ^= 0x40;
 				if (bad.empty() && LIB(mpt::mpt_identifier_compare(id, ex, (int) len - 1)) == 0) bad = fmt("compare\t%s: proper prefix compares equal (len %zu)", who, len);
 				tally("compare:unequal", 3);
@@ -268,65 +307,68 @@ struct Sys {
 			// not text: no text compares equal, name() is not offered
 			char one[1] = { 0 };
 			if (LIB(mpt::mpt_identifier_compare(id, one, 0)) == 0 && m.b.size()) return fmt("compare\t%s: non-text content compares equal to the empty text", who);
-			if (LIB(cx->name()) != 0) return fmt("compare\t%s: identifier::name() offered for non-text content", who);
+			if (LIB(id->name()) != 0) return fmt("compare\t%s: identifier::name() offered for non-text content", who);
 			tally("compare:nontext");
 		}
 		if (LIB(mpt::mpt_identifier_inequal(id, id)) != 0) return fmt("compare\t%s: inequal(x,x) != 0", who);
+		if (asan_error()) return fmt("compare\t%s: a comparison reads outside its arguments (AddressSanitizer)", who);
 		return "";
 	}
-	std::string sweep()
+	std::string pair_compare(const H &x, const M &mx, const H &y, const M &my, const char *who)
 	{
-		std::string e = observe(a, ma, "A"); if (!e.empty()) return e;
-		e = observe(b, mb, "B"); if (!e.empty()) return e;
-		bool eq = ma == mb;
-		int d1 = LIB(mpt::mpt_identifier_inequal(a.id, b.id)), d2 = LIB(mpt::mpt_identifier_inequal(b.id, a.id));
-		if ((d1 == 0) != eq || (d2 == 0) != eq) return fmt("compare\tinequal(A,B)=%d inequal(B,A)=%d but contents are %s", d1, d2, eq ? "equal" : "different");
+		bool eq = mx == my;
+		int d1 = LIB(mpt::mpt_identifier_inequal(x.id, y.id)), d2 = LIB(mpt::mpt_identifier_inequal(y.id, x.id));
+		if ((d1 == 0) != eq || (d2 == 0) != eq) return fmt("compare\tinequal(%s)=%d, reversed=%d but the contents are %s", who, d1, d2, eq ? "equal" : "different");
 		tally(eq ? "inequal:equal" : "inequal:different");
-		size_t want = base + (ma.b.size() > a.cap) + (mb.b.size() > b.cap);
-		size_t live = ledger_live();
-		if (live != want) return fmt("memory\t%zu library allocations live, expected %zu (%s)", live, want, live > want ? "leak" : "block released that is still needed");
-		if (asan_error()) return "memory\tAddressSanitizer reported an invalid memory access or free";
 		return "";
+	}
+	// complete observation of the current state
+	std::string full()
+	{
+		std::string e = memcheck(); if (!e.empty()) return e;
+		e = light(a, ma, "A"); if (!e.empty()) return e;
+		e = light(b, mb, "B"); if (!e.empty()) return e;
+		e = compares(a, ma, "A"); if (!e.empty()) return e;
+		e = compares(b, mb, "B"); if (!e.empty()) return e;
+		return pair_compare(a, ma, b, mb, "A,B");
 	}
 
-	// classification of an op instance in the current state: "opname|pre->post|argclass" (+ source class for copies)
-	std::string classify(const Alphabet &al, const OpInst &op, std::string &memo) const
+	// classification of an op instance in the current state: "opname|pre->post|argclass"
+	std::string classify(const Alphabet &al, const OpInst &op) const
 	{
 		const char *pre = stclass(ma, a.cap);
-		std::string name, post, arg, src;
-		size_t n = 0; bool refuse = false;
+		std::string name;
+		size_t n = 0, cap = a.cap; bool refuse = false;
 		switch (op.t) {
 		case SET: n = al.contents[op.a].len + 1; name = "set"; break;
 		case SETZ: n = op.a + 1; name = "set(strlen)"; break;
 		case SETNUL: n = op.a + 1; name = "set(embedded NUL)"; break;
 		case SETOVER: name = "set(over-long)"; refuse = true; break;
 		case SETNULL: n = op.a; name = "set(NULL,n)"; refuse = op.a > 65535; break;
-		case COPY_AB: n = mb.b.size(); name = "copy"; src = stclass(mb, b.cap); break;
-		case ASSIGN_AB: n = mb.b.size(); name = "operator="; src = stclass(mb, b.cap); break;
-		case COPY_BA: { n = ma.b.size(); name = "copy"; src = stclass(ma, a.cap);
-			std::string s = name + "|" + stclass(mb, b.cap) + "->" + (n == 0 ? "unset" : (n <= b.cap ? "inline" : "ext")) + "|" + lencls(n, b.cap);
-			memo = s + "|from " + src + "|B"; return s; }
+		case COPY_AB: n = mb.b.size(); name = "copy"; break;
+		case ASSIGN_AB: n = mb.b.size(); name = "operator="; break;
+		case COPY_BA: n = ma.b.size(); name = "copy"; pre = stclass(mb, b.cap); cap = b.cap; break;
 		case COPY_AA: n = ma.b.size(); name = "copy(self)"; break;
 		case COPY_ANULL: n = 0; name = "copy(NULL)"; break;
 		case SELF: name = "set(own data)"; n = ma.b.size() ? (op.a == 0 ? ma.b.size() - 1 : (op.a == 1 ? 2 : ma.b.size())) : 0; break;
-		case CLONE_TRAITS: name = "traits-init(copy)"; n = ma.b.size(); pre = "fresh16"; break;
-		case CLONE_CXX: name = "copy-constructor"; n = ma.b.size(); pre = "fresh16"; break;
+		case CLONE_TRAITS: name = "traits-init(copy)"; n = ma.b.size(); pre = "fresh16"; cap = 12; break;
+		case CLONE_CXX: name = "copy-constructor"; n = ma.b.size(); pre = "fresh16"; cap = 12; break;
 		}
-		size_t cap = (op.t == CLONE_TRAITS || op.t == CLONE_CXX) ? 12 : a.cap;
-		post = refuse ? "refused" : (n == 0 ? "unset" : (n <= cap ? "inline" : "ext"));
-		arg = refuse ? "over-long" : lencls(n, cap);
-		std::string s = name + "|" + pre + "->" + post + "|" + arg;
-		memo = s + (src.empty() ? "" : "|from " + src);
-		return s;
+		std::string post = refuse ? "refused" : (n == 0 ? "unset" : (n <= cap ? "inline" : "ext"));
+		return name + "|" + pre + "->" + post + "|" + (refuse ? "over-long" : lencls(n, cap));
 	}
 
-	// execute one op instance on implementation + model, then observe everything; "" or "group\tdetail"
-	std::string apply(const Alphabet &al, const OpInst &op, bool &enabled)
+	// execute one op instance on implementation + model, memory oracle, bystanders untouched, destination read back
+	std::string apply(const Alphabet &al, const OpInst &op)
 	{
-		enabled = true;
 		asan_error();
 		std::string e;
-		M olda = ma;
+		bool destA = true, destB = false;
+		std::string imgA, imgB;
+		if (op.t == COPY_BA) { destA = false; destB = true; }
+		if (op.t == COPY_AA || op.t == CLONE_TRAITS || op.t == CLONE_CXX) destA = false;
+		if (!destA) imgA = rawimage(a.id);
+		if (!destB) imgB = rawimage(b.id);
 		switch (op.t) {
 		case SET: case SETZ: case SETNUL: case SETOVER: {
 			std::string s; int len; bool permitted = true;
@@ -357,26 +399,20 @@ struct Sys {
 			} else { if (ret) e = "accepted\tover-long non-text length was not refused"; tally("refused:over-long"); }
 			break; }
 		case COPY_AB: case ASSIGN_AB: {
-			std::string before = rawimage(b.id);
 			void *ret;
 			if (op.t == COPY_AB) ret = LIB(mpt::mpt_identifier_copy(a.id, b.id));
 			else { LIB((*a.id = *b.id, 0)); ret = a.id; }
 			if (!ret) e = "refused\tcopy failed";
 			else ma = mb;
-			if (e.empty() && rawimage(b.id) != before) e = "source\tcopy changed the source identifier";
 			break; }
 		case COPY_BA: {
-			std::string before = rawimage(a.id);
 			void *ret = LIB(mpt::mpt_identifier_copy(b.id, a.id));
 			if (!ret) e = "refused\tcopy failed";
 			else mb = ma;
-			if (e.empty() && rawimage(a.id) != before) e = "source\tcopy changed the source identifier";
 			break; }
 		case COPY_AA: {
-			std::string before = rawimage(a.id);
 			void *ret = LIB(mpt::mpt_identifier_copy(a.id, a.id));
 			if (!ret) e = "refused\tself copy failed";
-			else if (rawimage(a.id) != before) e = "source\tself copy changed the identifier";
 			break; }
 		case COPY_ANULL: {
 			void *ret = LIB(mpt::mpt_identifier_copy(a.id, 0));
@@ -384,42 +420,47 @@ struct Sys {
 			else { ma.cs = 0; ma.b.clear(); }
 			break; }
 		case SELF: {
-			if (ma.cs != UTF8 || ma.b.size() < 2) { enabled = false; return ""; }
 			size_t len = ma.b.size() - 1, nl = op.a == 0 ? len - 1 : (op.a == 1 ? 1 : len);
 			const char *own = (const char *) LIB(mpt::mpt_identifier_data(a.id));
 			void *ret = LIB(mpt::mpt_identifier_set(a.id, own, (int) nl));
 			if (!ret) e = "refused\tsetting an identifier to a prefix of its own text was refused";
-			else { ma.b = olda.b.substr(0, nl); ma.b.push_back(0); }
+			else { ma.b.resize(nl); ma.b.push_back(0); }
 			tally("set:own data");
 			break; }
-		case CLONE_TRAITS: {
-			const mpt::type_traits *t = mpt::mpt_identifier_traits();
-			std::string before = rawimage(a.id);
-			void *mem = malloc(t->size);
-			int rc = LIB(t->init(mem, a.id));
-			H th; th.kind = TRAITS; th.obj = mem; th.id = (mpt::identifier *) mem; th.cap = th.id->_max;
-			if (rc < 0) e = fmt("status\ttraits init(copy) reports error %d", rc);
-			else {
-				if (th.cap != 12) e = "content\ttraits-initialised identifier has a wrong capacity";
-				else { size_t keep = base; base += ma.b.size() > th.cap; M keepb = mb; H hb = b; b = th; mb = ma; e = sweep(); b = hb; mb = keepb; base = keep; }
-				if (e.empty() && rawimage(a.id) != before) e = "source\ttraits init(copy) changed the source identifier";
-				if (e.empty()) { LIB((t->fini(mem), 0)); free(mem); }
+		case CLONE_TRAITS: case CLONE_CXX: {
+			H th; size_t extra = 0;
+			void *mem = 0;
+			if (op.t == CLONE_TRAITS) {
+				const mpt::type_traits *t = mpt::mpt_identifier_traits();
+				mem = malloc(t->size);
+				int rc = LIB(t->init(mem, a.id));
+				th.kind = TRAITS; th.obj = mem; th.id = (mpt::identifier *) mem;
+				if (rc < 0) e = fmt("status\ttraits init(copy) reports error %d although the copy was made", rc);
+				tally("clone:traits");
+			} else {
+				th.kind = CXX16; th.id = LIB(new mpt::identifier(*a.id)); th.obj = th.id; extra = 1;
+				tally("clone:c++");
 			}
-			tally("clone:traits");
-			break; }
-		case CLONE_CXX: {
-			std::string before = rawimage(a.id);
-			mpt::identifier *c = LIB(new mpt::identifier(*a.id));
-			H th; th.kind = CXX16; th.obj = c; th.id = c; th.cap = c->_max;
-			if (th.cap != 12) e = "content\tcopy-constructed identifier has a wrong capacity";
-			else { size_t keep = base; base += 1 + (ma.b.size() > th.cap); M keepb = mb; H hb = b; b = th; mb = ma; e = sweep(); b = hb; mb = keepb; base = keep; }
-			if (e.empty() && rawimage(a.id) != before) e = "source\tcopy constructor changed the source identifier";
-			if (e.empty()) LIB((delete c, 0));
-			tally("clone:c++");
+			th.cap = th.id->_max;
+			extra += ma.b.size() > th.cap;
+			std::string m = memcheck(extra);
+			if (!m.empty()) return m;
+			if (!e.empty()) return e;
+			if (th.cap != 12) return "content\tcopy-initialised identifier has a wrong capacity";
+			e = light(th, ma, "T"); if (!e.empty()) return e;
+			e = compares(th, ma, "T"); if (!e.empty()) return e;
+			e = pair_compare(th, ma, a, ma, "T,A"); if (!e.empty()) return e;
+			destroy(th);
 			break; }
 		}
+		std::string m = memcheck();
+		if (!m.empty()) return m;
 		if (!e.empty()) return e;
-		return sweep();
+		const char *who = (op.t == COPY_AB || op.t == ASSIGN_AB || op.t == COPY_BA || op.t >= CLONE_TRAITS) ? "source" : "bystander";
+		if (!destA && rawimage(a.id) != imgA) return fmt("%s\tA was changed although it is only the %s of this operation", who, op.t == COPY_AA ? "target of a self copy" : "source");
+		if (!destB && rawimage(b.id) != imgB) return fmt("%s\tB was changed although it is %s", who, who[0] == 's' ? "only the source of this operation" : "not involved in this operation");
+		e = light(a, ma, "A"); if (!e.empty()) return e;
+		return light(b, mb, "B");
 	}
 };
 
@@ -447,15 +488,16 @@ static std::string mdesc(const M &m, size_t cap)
 	if (m.b.empty()) return "unset";
 	return fmt("%s %zu bytes%s", m.cs == UTF8 ? "text," : "non-text,", m.b.size(), m.b.size() > cap ? " (external)" : " (inline)");
 }
+static std::string cdesc(const Content &c) { return c.unset ? std::string("unset") : fmt("%s(%zu)", c.variant ? "Q" : "P", c.len); }
 
 // ------------------------------------------------------------------ exploration of one storage pair
 struct PairJob {
-	int ka, kb; Alphabet al; bool ready;
+	int ka, kb; Alphabet al;
 	uint64_t nontrivial, execs;
-	PairJob() : ready(false), nontrivial(0), execs(0) {}
+	PairJob() : nontrivial(0), execs(0) {}
 };
 
-static bool set_content(Sys &s, H &h, M &m, const Content &c)
+static bool set_content(H &h, M &m, const Content &c)
 {
 	if (c.unset) return true;
 	std::string t = text(c.len, c.variant);
@@ -478,13 +520,12 @@ static void prepare(Run &r, PairJob &pj, const std::string &job)
 	// raw images of all initial states (real code: fresh storage + one set)
 	r.hint("initial state construction");
 	for (int side = 0; side < 2; ++side) for (const Content &c : pj.al.contents) {
-		Sys s; H h; M m; make(h, side ? pj.kb : pj.ka);
-		set_content(s, h, m, c);
+		H h; M m; make(h, side ? pj.kb : pj.ka);
+		set_content(h, m, c);
 		(side ? pj.al.knownB : pj.al.knownA).insert(rawimage(h.id));
 		destroy(h);
 	}
-	ledger_reset();
-	pj.ready = true;
+	ledger_reset(); nlibblk = 0;
 }
 
 static void report(Run &r, const std::string &cls, const std::string &res, const std::string &where)
@@ -492,84 +533,85 @@ static void report(Run &r, const std::string &cls, const std::string &res, const
 	size_t t = res.find('\t');
 	std::string group = res.substr(0, t), detail = t == std::string::npos ? "" : res.substr(t + 1);
 	r.violation(cls + "|" + group, where + ": " + detail);
+	ledger_reset(); nlibblk = 0;      // the storages of a violating execution are abandoned, not released
 }
 
+static const int DEPTH = 2;
 static void pair_body(Run &r, PairJob &pj, Ctx &x)
 {
 	const Alphabet &al = pj.al;
 	size_t ia = x.choose(al.contents.size()), ib = x.choose(al.contents.size());
+	size_t oi = x.choose(al.ops.size());
 	if ((++pj.execs & 1023) == 0) ledger_reset();
+	nlibblk = 0;
 	Sys s;
 	r.hint("storage creation");
 	if (!s.init(pj.ka, pj.kb)) { r.violation(std::string("create|") + kname[pj.ka] + "|failed", "storage could not be created"); return; }
-	std::string where = fmt("A=%s(cap %zu) B=%s(cap %zu): A:=%s%s B:=%s%s", kname[pj.ka], s.a.cap, kname[pj.kb], s.b.cap,
-	                        al.contents[ia].unset ? "unset" : (al.contents[ia].variant ? "Q" : "P"), al.contents[ia].unset ? "" : fmt("(%zu)", al.contents[ia].len).c_str(),
-	                        al.contents[ib].unset ? "unset" : (al.contents[ib].variant ? "Q" : "P"), al.contents[ib].unset ? "" : fmt("(%zu)", al.contents[ib].len).c_str());
+	std::string where = fmt("A=%s(cap %zu) B=%s(cap %zu): A:=%s B:=%s", kname[pj.ka], s.a.cap, kname[pj.kb], s.b.cap, cdesc(al.contents[ia]).c_str(), cdesc(al.contents[ib]).c_str());
 	r.hint("initial set");
 	asan_error();
 	for (int side = 0; side < 2; ++side) {
 		const Content &c = al.contents[side ? ib : ia];
 		H &h = side ? s.b : s.a; M &m = side ? s.mb : s.ma;
-		std::string e;
 		bool okset = false;
-		e = guarded([&]() { okset = set_content(s, h, m, c); return std::string(); });
-		if (!e.empty()) {}
-		else if (!okset) e = "refused\ta text of permitted length was refused";
-		else e = guarded([&]() { return s.sweep(); });
-		if (!e.empty()) { M want = model_of(c); report(r, std::string("set|unset->") + stclass(want, h.cap) + "|" + lencls(want.b.size(), h.cap), e, where + (side ? " (setting B)" : " (setting A)")); ledger_reset(); return; }
+		std::string e = guarded([&]() { okset = set_content(h, m, c); return std::string(); });
+		if (e.empty() && !okset) e = "refused\ta text of permitted length was refused";
+		if (e.empty()) e = guarded([&]() { std::string t = s.memcheck(); return t.empty() ? s.light(h, m, side ? "B" : "A") : t; });
+		if (!e.empty()) { M want = model_of(c); report(r, std::string("set|unset->") + stclass(want, h.cap) + "|" + lencls(want.b.size(), h.cap), e, where + (side ? " (setting B)" : " (setting A)")); return; }
 	}
-	int depth_max = 2;
-	bool last_nontrivial = false, counted_state = false, pending_new = false;
-	for (int depth = 1; depth <= depth_max; ++depth) {
-		size_t oi = x.choose(al.ops.size());
-		if (pending_new && oi == 0) { ++r.states; r.count("states beyond the initial ones (expanded)"); }
-		pending_new = false;
-		if (depth == 1 && oi == 0) { ++r.states; counted_state = true; if (r.samples.size() < 2 && ia == 3 && ib == al.contents.size() - 1) r.sample(where + " x {" + std::to_string(al.ops.size()) + " op instances}"); }
+	if (oi == 0) {
+		// first visit of this initial state: complete observation
+		++r.states;
+		if (ia == 4 && ib == al.contents.size() - 1) r.sample(where + " x {" + std::to_string(al.ops.size()) + " op instances}");
+		std::string e = guarded([&]() { return s.full(); });
+		if (!e.empty()) { report(r, "set|initial-state", e, where); return; }
+	}
+	bool last_nontrivial = false;
+	for (int depth = 1;; ++depth) {
 		const OpInst &op = al.ops[oi];
 		if (op.t == SELF && (s.ma.cs != UTF8 || s.ma.b.size() < 2)) { r.count("op not enabled in this state"); break; }
-		std::string memo, cls = s.classify(al, op, memo);
+		std::string cls = s.classify(al, op);
 		std::string step = where + " ; " + opdesc(al, op) + fmt(" [A %s, B %s]", mdesc(s.ma, s.a.cap).c_str(), mdesc(s.mb, s.b.cap).c_str());
 		where += " ; " + opdesc(al, op);
 		r.note("%s", step.c_str());
-		std::string preclsA = stclass(s.ma, s.a.cap); size_t prelenA = s.ma.b.size();
+		std::string preA = stclass(s.ma, s.a.cap);
 		r.hint(cls.c_str());
-		bool enabled = true;
-		std::string res = guarded([&]() { return s.apply(al, op, enabled); });
-		if (!enabled) { r.count("op not enabled in this state"); break; }
+		std::string res = guarded([&]() { return s.apply(al, op); });
 		++r.transitions;
-		if (!res.empty()) { report(r, cls, res, step); ledger_reset(); return; }
-		// path counters
+		if (!res.empty()) { report(r, cls, res, step); return; }
 		{
 			std::string postA = stclass(s.ma, s.a.cap);
 			bool replaces = op.t == SET || op.t == SETZ || op.t == SETNUL || (op.t == SETNULL && op.a <= 65535) || op.t == COPY_AB || op.t == ASSIGN_AB || op.t == SELF;
-			bool moved = (preclsA == "ext") != (postA == "ext") || (preclsA == "ext" && postA == "ext" && replaces);
-			last_nontrivial = moved;
-			std::string fam = op.t <= SETNULL || op.t == SELF ? "set" : (op.t <= ASSIGN_AB ? "copy" : "clone");
-			if (op.t != COPY_BA && fam != "clone") r.count("path " + fam + ":" + preclsA + "->" + postA);
+			last_nontrivial = (preA == "ext") != (postA == "ext") || (preA == "ext" && postA == "ext" && replaces);
+			const char *fam = op.t <= SETNULL || op.t == SELF ? "set" : (op.t <= ASSIGN_AB ? "copy" : "clone");
+			if (op.t != COPY_BA && fam[1] != 'l') r.count(std::string("path ") + fam + ":" + preA + "->" + postA);
 			if (s.ma.b.size() == 65535) r.count("path stored the longest permitted content (65535 bytes)");
-			(void) prelenA;
 		}
-		// expand further only from states that are not initial states
-		if (depth < depth_max) {
-			bool known = al.knownA.count(rawimage(s.a.id)) && al.knownB.count(rawimage(s.b.id));
-			if (known) break;
-			r.note("  new state: A %s %s", rawimage(s.a.id).substr(0, 80).c_str(), al.knownA.count(rawimage(s.a.id)) ? "(initial)" : "(not an initial state)");
-			r.note("             B %s %s", rawimage(s.b.id).substr(0, 80).c_str(), al.knownB.count(rawimage(s.b.id)) ? "(initial)" : "(not an initial state)");
-			pending_new = true;
-		} else {
-			bool known = al.knownA.count(rawimage(s.a.id)) && al.knownB.count(rawimage(s.b.id));
-			if (!known) r.count("new states at the depth bound (not expanded)");
+		// states that are initial states are explored from there; others are expanded here
+		bool known = al.knownA.count(rawimage(s.a.id)) && al.knownB.count(rawimage(s.b.id));
+		bool expand = !known && depth < DEPTH;
+		if (!known && !expand) r.count("new states at the depth bound (not expanded)");
+		if (expand) {
+			r.note("  state is not an initial state: A %s | B %s", imgdesc(s.a.id).c_str(), imgdesc(s.b.id).c_str());
+			oi = x.choose(al.ops.size());
+			if (oi == 0) { ++r.states; r.count("states beyond the initial ones (expanded)"); }
 		}
+		if (!known && (!expand || oi == 0)) {
+			// complete observation of the state just reached (once per state).  A post-state whose raw image equals an initial
+			// state has been read back byte-exact above; the comparison functions depend on nothing but that image and were
+			// observed completely on the initial state itself.
+			std::string e = guarded([&]() { return s.full(); });
+			if (!e.empty()) { report(r, cls, e, step); return; }
+		}
+		if (!expand) break;
 	}
-	(void) counted_state;
 	if (last_nontrivial) ++pj.nontrivial;
 	// release: everything the library allocated must be gone
 	r.hint("release");
-	size_t before = ledger_live();
-	s.fini();
-	if (asan_error()) r.violation("release|memory", where + ": AddressSanitizer report while releasing the identifiers");
-	else if (ledger_live() + s.base + (s.ma.b.size() > s.a.cap) + (s.mb.b.size() > s.b.cap) != before) r.violation("release|memory", where + fmt(": %zu library allocations left after release", ledger_live()));
-	else if (ledger_live() != 0) { r.violation("release|memory", where + fmt(": %zu library allocations left after release", ledger_live())); ledger_reset(); }
+	std::string e = guarded([&]() { s.fini(); return std::string(); });
+	if (e.empty() && asan_error()) e = "memory\tAddressSanitizer report while releasing the identifiers";
+	if (e.empty() && ledger_live() != s.l0) e = fmt("memory\t%zu library allocations left after release", ledger_live() - s.l0);
+	if (!e.empty()) { report(r, "release", e, where); return; }
 	for (auto &c : s.tally.c) r.count(c.first, c.second);
 }
 
@@ -587,17 +629,18 @@ static void alloc_body(Run &r, Ctx &x, uint64_t &nontrivial)
 	long len = lens[x.choose(lens.size())];
 	if (!len) ++r.states;
 	++r.transitions;
+	nlibblk = 0;
 	std::string where = fmt("%s(%ld)", fn[fam], len);
 	r.note("%s", where.c_str());
 	r.hint(fn[fam]);
 	asan_error();
-	Sys s; s.base = 0; s.ma.cs = s.mb.cs = 0;
-	size_t l0 = ledger_live();
+	Sys s; s.ma.cs = s.mb.cs = 0;
+	s.l0 = ledger_live();
 	H h;
 	std::string sig = std::string(fn[fam]) + "|";
 	if (fam == 0) {
 		h.kind = NEW32; h.id = LIB(mpt::mpt_identifier_new(len)); h.obj = h.id;
-		if (len > 65535) { if (h.id) r.violation(sig + "over-long|accepted", where + ": length above the 65535 limit was not refused"); else r.count("refused:alloc over-long"); if (h.id) free(h.id); return; }
+		if (len > 65535) { if (h.id) { r.violation(sig + "over-long|accepted", where + ": length above the 65535 limit was not refused"); free(h.id); } else r.count("refused:alloc over-long"); return; }
 	} else if (fam == 1) { h.kind = NODE64; h.node = LIB(mpt::mpt_node_new(len)); h.obj = h.node; h.id = h.node ? &h.node->ident : 0; }
 	else if (fam == 2) {
 		std::string t = text(len, 0);
@@ -608,26 +651,27 @@ static void alloc_body(Run &r, Ctx &x, uint64_t &nontrivial)
 	} else { if (!make(h, TRAITS)) { r.violation(sig + "status", "traits init without source reports an error"); return; } }
 	if (!h.id) { r.violation(sig + "failed", where + ": no storage returned"); return; }
 	h.cap = h.id->_max;
-	s.base = ledger_live() - l0 - (s.ma.b.size() > h.cap);
-	s.a = h; make(s.b, EMB16); s.mb.cs = 0;
-	std::string e = s.sweep();
+	s.base = ledger_live() - s.l0 - (s.ma.b.size() > h.cap);
+	s.a = h;
+	{ size_t l1 = ledger_live(); make(s.b, EMB16); s.base += ledger_live() - l1; }
+	std::string e = guarded([&]() { return s.full(); });
 	if (fam <= 1) { if (len <= 252 && h.cap >= (size_t) len) r.count("alloc: inline capacity >= requested length"); else r.count("alloc: inline capacity < requested length (not flagged)"); }
 	// fill the inline bytes completely, then go external, then clear
 	Alphabet al;
 	for (long l : {(long) h.cap - 1, (long) h.cap, 0L}) {
 		if (!e.empty()) break;
 		al.contents.assign(1, Content{false, (size_t) l, 0});
-		bool en;
 		r.hint((std::string(fn[fam]) + " then set").c_str());
-		e = guarded([&]() { return s.apply(al, OpInst{SET, 0, 0}, en); });
+		e = guarded([&]() { std::string t = s.apply(al, OpInst{SET, 0}); return t.empty() ? s.full() : t; });
 		++r.transitions;
 	}
-	if (e.empty()) { bool en; e = guarded([&]() { return s.apply(al, OpInst{COPY_ANULL, 0, 0}, en); }); }
-	if (!e.empty()) { report(r, std::string(fn[fam]) + "|" + (len + 4 <= 256 ? "size-class" : "fallback"), e, where); ledger_reset(); return; }
+	if (e.empty()) e = guarded([&]() { std::string t = s.apply(al, OpInst{COPY_ANULL, 0}); return t.empty() ? s.full() : t; });
+	if (!e.empty()) { report(r, std::string(fn[fam]) + "|" + (len + 4 <= 256 ? "size-class" : "fallback"), e, where); return; }
 	++nontrivial;
 	r.hint("release");
-	s.fini();
-	if (asan_error() || ledger_live() != l0) { r.violation("release|memory", where + ": allocation left or invalid access while releasing"); ledger_reset(); }
+	e = guarded([&]() { s.fini(); return std::string(); });
+	if (e.empty() && (asan_error() || ledger_live() != s.l0)) e = "memory\tallocation left or invalid access while releasing";
+	if (!e.empty()) { report(r, "release", e, where); return; }
 	for (auto &c : s.tally.c) r.count(c.first, c.second);
 }
 
@@ -639,6 +683,7 @@ void mc_jobs(Tier t, std::vector<std::string> &jobs)
 	else for (int k = 0; k < NKINDS; ++k) bk.push_back(k);
 	for (int a = 0; a < NKINDS; ++a) for (int b : bk) jobs.push_back(std::string("A=") + kname[a] + ",B=" + kname[b]);
 	jobs.push_back("alloc");
+	if (getenv("C16_DEV_JOBS")) { std::vector<std::string> f; for (auto &j : jobs) if (j.find(getenv("C16_DEV_JOBS")) != std::string::npos) f.push_back(j); jobs = f; }
 }
 
 static void declare(Run &r, bool pair)
@@ -647,8 +692,8 @@ static void declare(Run &r, bool pair)
 	if (!pair) return;
 	for (const char *k : {"path set:unset->inline", "path set:unset->ext", "path set:inline->inline", "path set:inline->ext", "path set:ext->inline", "path set:ext->ext", "path set:ext->unset", "path set:inline->unset",
 	                      "path copy:unset->inline", "path copy:unset->ext", "path copy:inline->inline", "path copy:inline->ext", "path copy:ext->inline", "path copy:ext->ext", "path copy:ext->unset", "path copy:inline->unset",
-	                      "path stored the longest permitted content (65535 bytes)", "refused:over-long", "compare:equal", "compare:unequal", "compare:nontext", "inequal:equal", "inequal:different",
-	                      "set:own data", "clone:traits", "clone:c++", "states beyond the initial ones (expanded)"})
+	                      "path stored the longest permitted content (65535 bytes)", "refused:over-long", "compare:equal", "compare:unequal", "compare:nontext", "compare:node_locate", "inequal:equal", "inequal:different",
+	                      "set:own data", "clone:traits", "clone:c++", "via identifier::set_name", "states beyond the initial ones (expanded)"})
 		r.require(k);
 }
 
